@@ -127,22 +127,29 @@ SumCount(hunks, kinds) == IF hunks = <<>> THEN 0 ELSE Count(Head(hunks).lines, k
 LawStats(c, o) == o.empty \/ (/\ o.stats[1] = SumCount(o.hunks, {"ins"}) /\ o.stats[2] = SumCount(o.hunks, {"rem"})
                               /\ o.stats[1] - o.stats[2] = Len(c.new) - Len(c.old))
 \* a text that does not match the diff's context is reported as a conflict (PatchConflict), never patched
-ConflictFailures(c, o) ==
+\* one pass over the perturbed texts: what the transcribed patcher says for the REAL hunks against what was observed;
+\* f = the failed conflict clause (or <<>>), d = differs from the transcription where the text still matches (drift)
+PertJudge(c, o) ==
     IF o.empty THEN {}
-    ELSE {<<"conflict", ApplyHunks(c.perts[k], o.hunks).why, o.perts[k].kind>> :
-              k \in {j \in DOMAIN c.perts : ApplyHunks(c.perts[j], o.hunks).kind = "conflict" /\ o.perts[j].kind # "PatchConflict"}}
-Failed(c, o) == (IF LawApply(c, o) THEN {} ELSE {<<"apply", "", o.app1.kind>>})
-                \cup (IF LawRoundTrip(c, o) THEN {} ELSE {<<"roundtrip", "", "">>})
-                \cup (IF LawStats(c, o) THEN {} ELSE {<<"stats", "", "">>})
-                \cup ConflictFailures(c, o)
-\* conformance (drift only): the recorded hunks form a correct diff in the sense of ValidDiff, texts that still match
-\* are patched exactly as the transcription says, the hunk count statistic is right
-Conforms(c, o) ==
+    ELSE {LET sp == ApplyHunks(c.perts[k], o.hunks)
+              ob == o.perts[k]
+          IN [f |-> IF sp.kind = "conflict" /\ ob.kind # "PatchConflict" THEN <<"conflict", sp.why, ob.kind>> ELSE <<>>,
+              d |-> sp.kind = "ok" /\ ob # Ok(sp.out)] : k \in DOMAIN c.perts}
+OtherFailures(c, o) == (IF LawApply(c, o) THEN {} ELSE {<<"apply", "", o.app1.kind>>})
+                       \cup (IF LawRoundTrip(c, o) THEN {} ELSE {<<"roundtrip", "", "">>})
+                       \cup (IF LawStats(c, o) THEN {} ELSE {<<"stats", "", "">>})
+\* conformance (drift only): the recorded hunks form a correct diff in the sense of ValidDiff, the hunk count statistic
+\* is right (texts that still match must be patched exactly as the transcription says: PertJudge.d)
+ConformsBase(c, o) ==
     /\ ValidDiff(c.old, c.new, o.hunks)
     /\ o.empty = (o.hunks = <<>>)
     /\ ~o.empty => o.stats[3] = Len(o.hunks)
-    /\ ~o.empty => \A k \in DOMAIN c.perts :
-            LET sp == ApplyHunks(c.perts[k], o.hunks) IN sp.kind = "ok" => o.perts[k] = Ok(sp.out)
+\* verdict of one observation: failed clauses (as <<clause, why, observed kind>>) and drift
+Verdict(c, o) == LET pj == PertJudge(c, o) IN
+                 [failed |-> OtherFailures(c, o) \cup ({r.f : r \in pj} \ {<<>>}),
+                  drift |-> ~ConformsBase(c, o) \/ \E r \in pj : r.d]
+Failed(c, o) == Verdict(c, o).failed
+Conforms(c, o) == ~Verdict(c, o).drift
 
 \* what an ideal implementation would record (design check): the reference diff and the transcribed patcher
 Rec(r) == IF r.kind = "ok" THEN Ok(r.out) ELSE [kind |-> "PatchConflict", out |-> <<>>]
